@@ -174,7 +174,7 @@ def cases(tier):
     if tier == "quick":
         win, zw, Y, M, W, D = (1998, 2000), (2000, 2000), 3, 30, 60, 800
     else:
-        win, zw, Y, M, W, D = (1601, 2000), (1998, 2000), 400, 50, 120, 800
+        win, zw, Y, M, W, D = (1901, 2000), (1998, 2000), 40, 50, 120, 800
     for how in ("add", "subtract", "add_negated"):
         out.append(dict(name=f"Date {how}", fn=date_ops, params=dict(how=how, ylo=win[0], yhi=win[1], Y=Y, M=M, W=W, D=D),
                         bounds=f"every Date in years {win[0]}..{win[1]} x years +-{Y} x months +-{M} x weeks +-{W} x days +-{D}"))
